@@ -88,6 +88,21 @@ EDITS = [
      [("            cand for res in partial_results for cand in res\n", "            cand for res in partial_results[:1] for cand in res\n")], 'breaks'),
     ('Alternative: partials evaluated on prev_gains', 'Threshold', 'GenTie_Threshold', THR,
      [("                partial_result = partial.evaluate(votes)\n", "                partial_result = partial.evaluate(prev_gains)\n")], 'rejects'),
+    ('Coalition: single parties dispatched to 0', 'Threshold', 'GenTie_Threshold', THR,
+     [("cand.get_n_coalition_members() if cand.is_coalition else 1", "cand.get_n_coalition_members() if cand.is_coalition else 0")], 'breaks'),
+    ('Coalition: dispatch on members + 1', 'Threshold', 'GenTie_Threshold', THR,
+     [("            n_members: self.evaluators.get(\n                n_members, self.default\n", "            n_members: self.evaluators.get(\n                n_members + 1, self.default\n")], 'breaks'),
+    ('Coalition: membership negated', 'Threshold', 'GenTie_Threshold', THR,
+     [("            if cand in passed[n_members]\n", "            if cand not in passed[n_members]\n")], 'breaks'),
+    ('Coalition: default evaluator for everybody', 'Threshold', 'GenTie_Threshold', THR,
+     [("            n_members: self.evaluators.get(\n                n_members, self.default\n            ).evaluate(votes)\n", "            n_members: self.default.evaluate(votes)\n")], 'breaks'),
+    ('Coalition: conditional turned around, renamed', 'Threshold', 'GenTie_Threshold', THR,
+     [("            cand: cand.get_n_coalition_members() if cand.is_coalition else 1\n            for cand, _ in votelib.util.sorted_votes(votes)\n",
+       "            c: 1 if not c.is_coalition else c.get_n_coalition_members()\n            for c, _ in votelib.util.sorted_votes(votes)\n"),
+      ("            cand for cand, n_members in n_member_dict.items()\n            if cand in passed[n_members]\n",
+       "            c for c, k in n_member_dict.items()\n            if c in passed[k]\n")], 'holds'),
+    ('Coalition: unsorted result', 'Threshold', 'GenTie_Threshold', THR,
+     [("            for cand, _ in votelib.util.sorted_votes(votes)\n", "            for cand, _ in votes.items()\n")], 'breaks'),
     # ---- approval.py QuotaSelector
     ('QuotaSelector: > becomes >=', 'Approval', 'GenTie_Approval', APP, [("if n_votes > qval or", "if n_votes >= qval or")], 'breaks'),
     ('QuotaSelector: accept_equal negated', 'Approval', 'GenTie_Approval', APP,
